@@ -165,6 +165,10 @@ pub trait Prop: Sync + Send {
     }
 }
 
+/// Set by the libFuzzer glue: the current executable is a fuzz target, not `gtv`, so evaluations
+/// must not start `gtv` child processes of themselves.
+pub static IN_FUZZ: std::sync::atomic::AtomicBool = std::sync::atomic::AtomicBool::new(false);
+
 // ---------------------------------------------------------------------------------------------
 // Panic capture
 
